@@ -337,6 +337,22 @@ fn build_corpus() -> Corpus {
         hid_stream(7, Command::Msg, 300, 5),
         hid_stream(9, Command::Ping, 7608, 6),
     ];
+    // two channels interleaved packet by packet (the receiver keeps per-channel state)
+    let (a, b) = (hid_stream(0x0A0A_0A0A, Command::Cbor, 300, 7), hid_stream(0x0A0A_0A0B, Command::Msg, 180, 8));
+    let mut mixed = Vec::new();
+    for i in 0..a.len().max(b.len()) {
+        if let Some(p) = a.get(i) {
+            mixed.push(p.clone());
+        }
+        if let Some(p) = b.get(i) {
+            mixed.push(p.clone());
+        }
+    }
+    hid_streams.push(mixed);
+    // the same channel sending two messages back to back
+    let mut twice = hid_stream(3, Command::Cbor, 130, 9);
+    twice.extend(hid_stream(3, Command::Ping, 61, 10));
+    hid_streams.push(twice);
     // a hand-made stream no honest sender produces: BCNT 65535 followed by 300 continuations
     let mut long = Vec::new();
     let mut init = vec![0u8; 64];
@@ -558,8 +574,8 @@ fn sweep_for(decoder: &str, base: &[u8]) -> Vec<Vec<LinkFault>> {
 fn hid_sweep(stream: &[Vec<u8>]) -> Vec<Vec<HidFault>> {
     let mut out: Vec<Vec<HidFault>> = vec![vec![]];
     let n = stream.len() as u32;
-    let mut idx: Vec<u32> = (0..n.min(3)).collect();
-    if n > 3 {
+    let mut idx: Vec<u32> = (0..n.min(6)).collect();
+    if n > 6 {
         idx.push(n - 1);
     }
     for i in &idx {
